@@ -88,7 +88,11 @@ DefaultCases == {[fam |-> "default", x |-> v, e |-> FA("default", X, <<LS(<<100>
 MapCases == {[fam |-> "map", x |-> m, e |-> e] : m \in Maps,
                e \in {F("length", X), F("length", F("keys", X)), F("sort", F("keys", X)), F("first", X), F("last", X),
                       FA("merge", X, <<Hash(<<LS(<<97>>)>>, <<LI(9)>>)>>), FA("merge", X, <<Hash(<<LS(<<122>>)>>, <<LI(9)>>)>>),
-                      F("length", FA("merge", X, <<X>>)), FA("merge", Hash(<<LS(<<97>>)>>, <<LI(9)>>), <<X>>)}}
+                      F("length", FA("merge", X, <<X>>)), FA("merge", Hash(<<LS(<<97>>)>>, <<LI(9)>>), <<X>>),
+                      \* a later map wins also where its value is null: the key stays (keys, length), bound to null
+                      F("keys", FA("merge", X, <<Hash(<<LS(<<97>>)>>, <<Lit(Null)>>)>>)), F("length", FA("merge", X, <<Hash(<<LS(<<97>>)>>, <<Lit(Null)>>)>>)),
+                      F("length", FA("merge", X, <<Hash(<<LS(<<122>>)>>, <<Lit(Null)>>)>>)),
+                      F("keys", FA("merge", Hash(<<LS(<<97>>), LS(<<98>>)>>, <<LI(1), LI(2)>>), <<Hash(<<LS(<<97>>)>>, <<Lit(Null)>>), X>>))}}
 \* abs on ints
 NumCases == {[fam |-> "num", x |-> VI(n), e |-> e] : n \in {-12, -1, 0, 1, 7}, e \in {F("abs", X), F("abs", F("abs", X))}}
 
